@@ -394,7 +394,7 @@ register("C13", streams=[Q("parent", apis=["find_matches"], src=None, share=2), 
          extra=[families.MutateFamily("mset", 300, 15000, "set_match from a Match whose target path climbs above the source (outcome, returned location, object graph)")],
          rule="paths with parent steps in any position, interleaved with descents, filters and recursion, from a document or a Match; locations incl. the '<-name' trail compared")
 register("C17", streams=[Q("all", apis=["find_matches", "find", "get_match"], src=None)],
-         observables=["results_exc", "leaf_events", "stamps", "tie:trace"], oracles=[oracles.untraced_oracle],
+         observables=["results_exc", "leaf_events", "stamps", "tie:trace"], oracles=[oracles.untraced_oracle, oracles.long_scan_oracle],
          rule="full trace event stream (last_match, vertex index, next_match, predicate_match) compared with the machine model; unstamped events compared with the specification stream; traced vs untraced runs compared on the python side")
 register("C20", generated=["Budget"], streams=[Q("all", apis=["find_matches"], src=None, nexts="drain")],
          observables=["attempts_bound", "results_exc", "tie:attempts"], oracles=[oracles.work_bound_oracle, oracles.cyclic_oracle, oracles.deep_oracle],
@@ -416,7 +416,7 @@ register("C18", extra=[families.MutateFamily("descr", 1500, 60000, "outcome and 
 register("C19", extra=[families.MutateFamily("listview", 1500, 60000, "results and object graph of list-view operation histories")],
          rule="histories of len / [i] / [i]= / del [i] / in / append / pop(i) / iteration / live iterators interleaved with mutations / keep_all / remove_all through the view of a list-typed attribute (identity, negating and boxing converters; empty lists; negative and out-of-range indices; predicates keeping none / some / all); compared: results and the document's own list object in the whole object graph")
 
-register("C15", oracles=[oracles.reuse_oracle], extra=[families.BuilderFamily("dag", 1500, 60000, "renderings and selections of expression derivation DAGs")],
+register("C15", oracles=[oracles.reuse_oracle, oracles.spelling_oracle], extra=[families.BuilderFamily("dag", 1500, 60000, "renderings and selections of expression derivation DAGs")],
          generated=["Reserved"],
          rule="derivation DAGs over path / pathd: attribute and item steps of every kind (incl. reserved attribute names, odd builder attributes, unsupported indices), siblings derived before and after their shared prefix was rendered or evaluated, equivalent spellings derived late from one prefix; compared: str()/repr() of every expression, results of evaluating it on random documents (keys with '-' and '_'), errors")
 
